@@ -6,8 +6,8 @@ import ast
 from sa.astx import dotted, src
 from sa.selftest import Mutant, Silent
 from sa.source import AnalysisError
-from sa.props._lib_a import (DEFER, Q, CallGraph, ChainWalk, ICModel, RunShape, group, avoiding_path, call_nodes, calls_of, guarded_by_any, nodes_of, value_aliases,
-                             aliases, is_const, is_name, known_bool, params, stmt_nodes, sub0, succ_on, targets_values)
+from sa.props._lib_a import (DEFER, Q, CallGraph, ChainWalk, ICModel, RunShape, group, avoiding_path, call_nodes, calls_of, guarded_by_any, nodes_of,
+                             aliases, is_name, params, stmt_nodes, targets_values)
 
 PROPERTY = "C02"
 TECHNIQUE = "structural: call-graph no-re-entry/no-recursion, cell typestate over CFG, chain-stack walk"
@@ -250,6 +250,9 @@ def _check_registrations(ctx, cg, M, reach_ic):
 
 
 def _check_helper(ctx, M, name, H, k):
+    """The helper, read as a function of the value the cell holds when it runs (abstract evaluation of its CFG, M.helper_effect):
+    with the value the loop arms the cell with it must hand the outcome over without re-entering; with the value the loop leaves
+    when it gives up it must re-enter.  The protocol values are whatever constants / private markers the code uses."""
     hq = Q + name
     hg = ctx.cfg(H)
     hp = params(H)
@@ -257,36 +260,34 @@ def _check_helper(ctx, M, name, H, k):
         ctx.check(False, "inline/registration-shape", hq, f"{name} has no parameter for the waiting cell passed as extra argument {k}")
         return
     Wp = hp[k]
-    # (i) helper: the re-entry is on the false branch of `waiting[0]`
     Wa, Ra = aliases(H, Wp), aliases(H, hp[0])
-    reads_cell = lambda e: any(sub0(e, w, 0) for w in Wa)
-    writers = stmt_nodes(hg, lambda st: any(reads_cell(t) for t, _ in targets_values(st))) + call_nodes(hg, lambda c: is_name(c.func, IC))
-    temps = value_aliases(hg, reads_cell, writers)       # `armed = waiting[0]` ... `if armed:`
-    hcell = lambda e: reads_cell(e) or (isinstance(e, ast.Name) and e.id in temps)
     recalls = call_nodes(hg, lambda c: is_name(c.func, IC))
     ctx.check(bool(recalls), "inline/helper-resumes", hq, "the helper never resumes the generator")
-    for n in recalls:
-        ctx.check(known_bool(hg, n, hcell) is False, "inline/helper-reenters-only-when-not-waiting", ctx.construct(hq, hg.node(n).ast),
-                  f"the helper calls _inlineCallbacks while `{Wp}[0]` may be true, i.e. while the loop that registered it is still on "
-                  "the stack: one frame per already-fired Deferred awaited (RecursionError after ~1000 awaits)")
-    htests = [t.id for t in hg.nodes if t.kind == "test" and hg.reachable(t.id) and hcell(t.ast)]
-    ctx.check(bool(htests), "inline/helper-tests-cell", hq, f"the helper does not test `{Wp}[0]`")
-    clears = stmt_nodes(hg, lambda st: any(reads_cell(t) and is_const(v, False) for t, v in targets_values(st) if v is not None))
-    stores = stmt_nodes(hg, lambda st: any(any(sub0(t, w, 1) for w in Wa) and is_name(v) and v.id in Ra for t, v in targets_values(st) if v is not None))
-    tT, tF = succ_on(hg, htests, "T"), succ_on(hg, htests, "F")
-    wit = avoiding_path(hg, tT, [hg.exit], clears, strict=False) if tT else None
-    ctx.check(bool(clears) and wit is None, "inline/helper-clears-cell", hq + " | <waiting branch>",
-              "a synchronous firing leaves waiting[0] true: the loop takes the Deferred for unfired and returns; nobody resumes the generator",
-              witness=hg.describe(wit))
-    wit = avoiding_path(hg, tT, [hg.exit], stores, strict=False) if tT else None
-    ctx.check(bool(stores) and wit is None, "inline/helper-stores-result", hq + " | <waiting branch>",
-              "a synchronous firing does not leave the result in waiting[1]", witness=hg.describe(wit))
-    wit = avoiding_path(hg, tF, [hg.exit], recalls, strict=False) if tF else None
-    ctx.check(wit is None, "inline/helper-resumes", hq + " | <not-waiting branch>",
-              "a late firing can return without resuming the generator", witness=hg.describe(wit))
-    for n in clears + stores:
-        ctx.check(known_bool(hg, n, hcell) is True, "inline/helper-clears-cell", ctx.construct(hq, hg.node(n).ast),
-                  "the helper writes the waiting cell although the loop is not waiting for it")
+    armed = sorted({c for r in M.regs for (c, p, f) in M.at(r)}, key=repr)                 # cell values at a registration
+    left = sorted({c for a, l in M.g.pred[M.g.exit] for (c, p, f) in M.edge_states(a, l) if p == 1}, key=repr)   # ... at a suspending return
+    show = lambda v: "unknown" if v is None else (v[1] if isinstance(v, tuple) else str(v))
+    for v in armed:
+        effs = M.helper_effect(v)
+        ctx.check(bool(effs) and not any(called for _, called in effs), "inline/helper-reenters-only-when-not-waiting",
+                  ctx.construct(hq, hg.node(recalls[0]).ast) if recalls else hq,
+                  f"with the cell holding {show(v)} - its value while the loop that registered the helper is still on the stack - the helper "
+                  "calls _inlineCallbacks: one frame per already-fired Deferred awaited (RecursionError after a few hundred awaits)")
+        ctx.check(bool(effs) and all(c2 != v for c2, called in effs if not called), "inline/helper-clears-cell", hq + f" | <cell = {show(v)}>",
+                  "a synchronous firing leaves the cell as the loop armed it: the loop takes the Deferred for unfired and returns; nobody resumes "
+                  "the generator")
+    for v in left:
+        effs = M.helper_effect(v)
+        ctx.check(bool(effs) and all(called for _, called in effs), "inline/helper-resumes", hq + f" | <cell = {show(v)}>",
+                  f"with the cell holding {show(v)} - what the loop leaves when it returns to wait - a late firing can return without "
+                  "resuming the generator")
+    ctx.check(len({repr(sorted(M.helper_effect(v), key=repr)) for v in set(armed) | set(left)}) > 1 or not (armed and left),
+              "inline/helper-tests-cell", hq, f"the helper behaves the same whatever `{Wp}[0]` holds")
+    # the outcome is left in the cell list on every path that does not re-enter
+    stores = stmt_nodes(hg, lambda st: any(isinstance(t, ast.Subscript) and isinstance(t.value, ast.Name) and t.value.id in Wa and is_name(v) and v.id in Ra
+                                           for t, v in targets_values(st) if v is not None))
+    wit = avoiding_path(hg, [hg.entry], [hg.exit], set(stores) | set(recalls))
+    ctx.check(bool(stores) and wit is None, "inline/helper-stores-result", hq,
+              "a synchronous firing does not leave the outcome in the cell list for the loop to pick up", witness=hg.describe(wit))
 
 
 def _check_cell_states(ctx, M):
@@ -294,13 +295,13 @@ def _check_cell_states(ctx, M):
     # (ii)/(iii) cell states in the loop
     for r in M.regs:
         st = M.at(r)
-        bad = sorted(((c, p, f) for (c, p, f) in st if c is not True or p != 0 or f != 0), key=str)
+        bad = sorted(((c, p, f) for (c, p, f) in st if c is None or p != 0 or f != 0 or any(called for _, called in M.helper_effect(c))), key=str)
         ctx.check(bool(st) and not bad, "inline/cell-true-at-registration", ctx.construct(iq, M.reg_calls[r]),
-                  f"the helper can be registered in state (waiting[0], pending, fired) = {bad[:3]}: with waiting[0] false an already-fired "
+                  f"the helper can be registered in state (cell, pending, fired) = {bad[:3]}: with the cell in that state an already-fired "
                   "Deferred makes the helper call _inlineCallbacks recursively, once per await")
     for a, states in _exit_states(M):
         n = ig.node(a)
-        bad = sorted((s for s in states if not (s[2] == 1 or (s[1] == 1 and s[0] is False))), key=str)
+        bad = sorted((s for s in states if not (s[2] == 1 or (s[1] == 1 and M.resumes_later(s[0])))), key=str)
         ctx.check(not bad, "inline/return-leaves-a-resumer", ctx.construct(iq, n.ast) + f" @{_which(M, a)}",
                   f"_inlineCallbacks can return in state (waiting[0], pending, fired) = {bad[:3]}: neither the result Deferred fired nor "
                   "a helper left that will re-enter (waiting[0] must be False while the helper is pending)")
@@ -358,14 +359,10 @@ def _exit_states(M):
     g = M.g
     out = []
     for a, l in g.pred[g.exit]:
-        if a not in M.states:
-            continue
-        o, _ = M._transfer(a, M.at(a))
-        if a in M.cell_tests and l in ("T", "F"):
-            want = l == "T"
-            o = {(want if c is None else c, p, f) for (c, p, f) in o if c is None or c is want}
-        if o:
-            out.append((a, o))
+        if a in M.states:
+            o = M.edge_states(a, l)
+            if o:
+                out.append((a, o))
     return sorted(out, key=lambda x: x[0])
 
 
